@@ -147,6 +147,21 @@ func randReadSizes(r *rand.Rand, f, p int) []int {
 	return out
 }
 
+// keep the number of Read calls of a scenario in the hundreds: grow the sizes with the plaintext
+func scaleReads(sizes []int, n int) []int {
+	sum := 0
+	for _, x := range sizes {
+		sum += x
+	}
+	for sum*100 < n*len(sizes) {
+		for i := range sizes {
+			sizes[i] *= 2
+		}
+		sum *= 2
+	}
+	return sizes
+}
+
 // the operations of one generated scenario over parameters already fixed in sc (P, T, Off, Hdr)
 func genOps(r *rand.Rand, sc *scenario, allowOne bool, maxSegs int) {
 	f, p, t := sc.P-sc.Off, sc.P, sc.T
@@ -198,7 +213,7 @@ func genOps(r *rand.Rand, sc *scenario, allowOne bool, maxSegs int) {
 		tam.M = []manip{m1}
 	}
 	ops = append(ops, tam, op{Op: "NewReader"},
-		op{Op: "Reads", Sizes: randReadSizes(r, f, p), Extra: 2, Max: 3*n + 12*segs + 20})
+		op{Op: "Reads", Sizes: scaleReads(randReadSizes(r, f, p), n), Extra: 2, Max: min(3*n+12*segs+20, 600)})
 	sc.Ops = ops
 }
 
